@@ -23,7 +23,10 @@ SCHEMAS = ['public', 'public', 'public', 'sales', 'hr']
 ACTIONS = [None, None, 'cascade', 'restrict', 'set null', 'set default', 'no action']
 INDEX_TYPES = [None, None, 'btree', 'hash', 'gin', 'gist', 'brin', 'spgist']
 NOTES = ['', '', 'a note', "it's quoted", 'two\nlines', 'with "dq"', 'back\\slash', "triple ''' q", 'é日本',
-         'line1\n  indented\nline3', 'cont \\\nline', 'para one\n\npara two', 'a\n\n  b\n\n\nc']
+         'line1\n  indented\nline3', 'cont \\\nline', 'para one\n\npara two', 'a\n\n  b\n\n\nc',
+         # a sentence-length text: longer than any line a pretty-printer would keep on one line
+         'the identifier of the customer this order was placed by, copied from the legacy system when the account was migrated in 2019']
+LONG_TEXT = 'a value long enough that a settings list holding it does not fit on one line of a hundred characters, whatever else it holds'
 COMMENTS = [None, None, None, 'a comment', 'two\nline comment', "c with 'q'", 'c {brace}', '-- sql', '*/ x']
 COLORS = [None, None, '#fff', '#A1B2C3', '#000000']
 
@@ -84,7 +87,7 @@ def gen_column(rng, wild, used, n_enums):
         typ = pick(rng, TYPES)
     props = []
     if rng.random() < 0.15:
-        props = [[pick(rng, ['pk1', 'label', 'k']), pick(rng, ['v', "it's", 'two words', 'm\nl'] if wild else ['v', 'two words'])]]
+        props = [[pick(rng, ['pk1', 'label', 'k']), pick(rng, ['v', "it's", 'two words', 'm\nl', LONG_TEXT] if wild else ['v', 'two words', LONG_TEXT])]]
         if rng.random() < 0.3:
             props.append(['zz', 'last'])
     return {
@@ -158,6 +161,11 @@ def gen_spec(rng, wild=False, max_tables=5, allow_props=None, refs_wild_comment=
         tprops = []
         if rng.random() < 0.15:
             tprops = [['owner', pick(rng, ['team a', 'x'])]]
+            # several properties: their order is part of what is declared
+            if rng.random() < 0.6:
+                tprops.append(['zone', pick(rng, ['eu', 'a b'])])
+            if rng.random() < 0.4:
+                tprops.insert(0, ['audit', 'yes'])
         tables.append({
             'name': name, 'schema': schema, 'alias': alias, 'columns': cols, 'indexes': idx,
             'note': pick(rng, NOTES) if rng.random() < 0.35 else '',
